@@ -260,6 +260,29 @@ def reportLinesOfHex (h : String) : List String :=
   let text := bytesToString (unhex h.toList)
   (text.splitOn "\n").dropLast
 
+/-! composition requests (C19) -/
+
+def isPragmaPartB (p : T) : Bool := p.tag? = some .SourceUnitPart_PragmaDirective
+
+def keepItems (i : Nat) (parts : List T) : List T :=
+  parts.zipIdx.filterMap fun pj => if isPragmaPartB pj.1 || pj.2 = i then some pj.1 else none
+
+/-- identifiers mentioned anywhere in a term -/
+def mentionedNames (t : T) : List String :=
+  (T.subtrees t).filterMap fun n => match n with
+    | .node .S_Identifier [_, .str s] => some s
+    | _ => none
+
+/-- state-variable names declared by an item (a contract's direct variable definitions) -/
+def declaredStateNames (item : T) : List String :=
+  (directVariables item).filterMap varNameOf
+
+/-- no item mentions a state-variable name declared in another item -/
+def itemsIndependent (parts : List T) : Bool :=
+  let items := parts.zipIdx
+  items.all fun (a, i) => items.all fun (b, j) =>
+    i == j || (declaredStateNames a).all (fun n => !(mentionedNames b).contains n)
+
 def lookup {α : Type} (m : List (String × α)) (k : String) : Option α := (m.find? (fun e => e.1 == k)).map (·.2)
 
 end Solstat
